@@ -73,7 +73,9 @@ ASSUMPTIONS = ["stacks are well-formed: TestResultDecorator / Tagger (which forw
 EXPLANATION = ("Theorems in coq/Props/C08.v over all stacks and histories; correspondence: the calls of a generated "
                "history are made on a real stack of adapters over logging doubles, the logs of all innermost results, "
                "the on_test callbacks and the raising calls are compared with coq/Model/Adapters.v and judged by "
-               "Spec.C08.spec_okb inside coqc.")
+               "Spec.C08.spec_okb inside coqc. A share of the histories is driven by a caller that keeps one details "
+               "dict object and refills it for every outcome (what sinks logged by reference is read before the next "
+               "call).")
 
 # detail names are sent to the model as they are (strings); the pool is built around the two names the code
 # treats specially ('traceback' in _details_to_exc_info, 'reason' in addSkip): names extending them (what
